@@ -29,6 +29,8 @@ None == [ok |-> FALSE, n |-> S]
 Mk(g, n) == IF g THEN [ok |-> TRUE, n |-> n] ELSE None
 ModelOf(e) ==
   CASE e.a = "AppBegin" -> Mk(G_AppBegin(e.args.batch), N_AppBegin(e.args.batch))
+    [] e.a = "AppSetBegin" -> Mk(G_AppSetBegin(e.args.batch), N_AppSetBegin(e.args.batch))
+    [] e.a = "Reopen" -> Mk(G_Reopen, N_Reopen)
     [] e.a = "TrnBegin" -> Mk(G_TrnBegin(e.args.o), N_TrnBegin(e.args.o))
     [] e.a = "ClnBegin" -> Mk(G_ClnBegin, N_ClnBegin)
     [] e.a = "SetHW" -> Mk(G_SetHW(e.args.h), N_SetHW(e.args.h))
@@ -61,7 +63,7 @@ Bind(e, m) ==
   \* the batch of the call in flight is what the driver passed, whatever the model thinks of the call
   /\ app' = [m.n.app EXCEPT !.pc = e.st.app.pc,
                             !.batch = IF e.st.app.pc = "idle" THEN <<>>
-                                      ELSE IF e.a = "AppBegin" THEN e.args.batch ELSE app.batch]
+                                      ELSE IF e.a \in {"AppBegin", "AppSetBegin"} THEN e.args.batch ELSE app.batch]
   /\ trn' = [m.n.trn EXCEPT !.pc = e.st.trn.pc]
   /\ cln' = [m.n.cln EXCEPT !.pc = e.st.cln.pc]
   /\ ever' = ever \cup UNION {Range(e.st.segs[k].recs) : k \in 1..Len(e.st.segs)}
@@ -110,6 +112,8 @@ JudgeState(e) ==
 \* what the properties demand of this step
 Judge(e) ==
   /\ JudgeState(e)
+  /\ (e.a = "Reopen") => Chk(P_Reopen, "P", e, "X05_Reopen")
+  /\ (e.a = "AppSetBegin") => Chk(P_AppendStep, "P", e, "X05_AppendKeeps")
   /\ (e.a = "Step" /\ e.args.p = "app") =>
         /\ Chk(P_AppendStep, "P", e, "X05_AppendKeeps")
         /\ (obs'.a = "Append" /\ app.batch # <<>>) =>
